@@ -8,8 +8,9 @@ var props = map[string]propCfg{
 			{Name: "feed", Quick: 30000, Thorough: 2000000, Batch: 500},
 			{Name: "filter", Quick: 1500, Thorough: 100000, Batch: 100},
 			{Name: "loop", Quick: 1500, Thorough: 100000, Batch: 100},
+			{Name: "c08", Quick: 600, Thorough: 60000, Batch: 50},
 		},
-		Rule: "one evaluation = one seeded (byte stream, read() cut plan, fault plan) executed through the real Reader.feed and compared with a reference record splitter; " +
+		Rule: "c08: interactive sessions with --header-lines/--tail and reload/reload-sync (total count and list vs the records of the loaded source). loop/filter: see C13/C07. feed: one evaluation = one seeded (byte stream, read() cut plan, fault plan) executed through the real Reader.feed and compared with a reference record splitter; " +
 			"non-trivial = the stream was delivered in more than 3 read() results (so records straddle reads); distinct = different (record count, bytes consumed, number of reads) outcome signature",
 		Assume: []string{"simulated reader follows OS semantics only: (n>0,nil) | (0,EOF) | (0,err) | (0,nil)<100 times in a row"},
 		RealStub: map[string][]string{
